@@ -162,3 +162,37 @@ def run(ctx):
     R.ob('C08.writers', ('Response', 'constructors'), okc, 'responses are constructed only by execute and by the request limiter', [g.loc(s) for g, s in ctors])
     from .server_common import guard_always_disarmed
     guard_always_disarmed(ctx, 'C08.once', S)
+    # every request the request stream reads from its channel is yielded to the application (E-SHAPE)
+    from .shape_common import run_jobs, server_chains, chain_name
+    rp = S.requests_poll
+    chains = [c for c in server_chains(F) if len(c) <= (2 if ctx.tier == 'quick' else 3)]
+    res = run_jobs(F, [{'key': chain_name(ch), 'entry': rp.id, 'aut': ('custom', YieldAut), 'chain': ch, 'boundary': yield_boundary} for ch in chains])
+    for ch in chains:
+        r = res[chain_name(ch)]
+        R.count('states_explored', r['stats'].get('states', 0))
+        lost = sorted({repr(ret)[:40] for (ret, e, lab) in r['exits'] if e[0] == 'got' and not (isinstance(ret, tuple) and ret[0] == 'Ready' and isinstance(ret[1], tuple) and ret[1][0] == 'Some')})
+        R.ob('C08.yield', ('Requests<%s>::poll_next' % chain_name(ch), 'a request read from the channel is yielded'), not lost and not r['viol'],
+             'whenever the channel\'s stream hands a tracked request to the request stream in an activation, that activation returns it (it is never dropped because a response was written in the same iteration)',
+             sorted({s_ for v in r['viol'].values() for s_ in v}) or [rp.loc(rp.d)], 'exits after reading a request: %s %s' % (lost, list(r['viol'])))
+
+
+class YieldAut:
+    name = 'yield'
+
+    def init(self):
+        return 'idle'
+
+    def step(self, aut, ev, shape, site, X):
+        if ev[0] == 'I':
+            ok_item = isinstance(shape, tuple) and shape[0] == 'Ready' and isinstance(shape[1], tuple) and shape[1][0] == 'Some' and isinstance(shape[1][1], tuple) and shape[1][1][0] == 'Ok'
+            if aut == 'got':
+                X.violation(('REQUEST_DROPPED_BEFORE_NEXT_READ',), site)
+            return 'got' if ok_item else 'idle'
+        return aut
+
+
+def yield_boundary(t, f, callee_f, level, nlevel):
+    # the devirtualised call from the request stream into its channel's Stream::poll_next
+    if level == 0 and nlevel == 1 and (t.get('callee') or '').endswith('Stream::poll_next'):
+        return ('I', 'poll_next')
+    return None
